@@ -1360,7 +1360,7 @@ impl SparqlDatabase {
         // Cut chunks only between statements, and record for every chunk the
         // prefix declarations made before it.
         let declaration = |line: &str| -> Option<(String, String)> {
-            let line = line.split('#').next().unwrap_or("").trim();
+            let line = Self::strip_n3_comment(line);
             let line = line.strip_prefix("@prefix")?.trim_end_matches('.');
             let mut parts = line.split_whitespace();
             let prefix = parts.next()?.trim_end_matches(':').to_string();
@@ -1373,7 +1373,7 @@ impl SparqlDatabase {
         let mut prefixes_at_chunk_start = prefixes_so_far.clone();
         let mut statement_open = false;
         for line in lines {
-            let code = line.split('#').next().unwrap_or("").trim();
+            let code = Self::strip_n3_comment(&line);
             if let Some((prefix, uri)) = declaration(&line) {
                 prefixes_so_far.insert(prefix, uri);
             } else if !code.is_empty() {
